@@ -69,11 +69,6 @@ def compare(exp, got, texts):
         s = stem(f, e["k"])
         want_outline = ["M_" + s, "D_" + s] + (["X_" + s] if e["faulty"] else [])
         g["outline"] = [n for n in g["outline"] if not n.startswith("ds_")]       # the defsets some include statements are nested in
-        if any("defset" in t for t in texts.values()):
-            # a def of a file included from inside a defset is listed under that defset, not in its own file's outline:
-            # with defsets around only the classes are compared (a file indexed twice still shows its class twice)
-            g["outline"] = [n for n in g["outline"] if n.startswith("M_")]
-            want_outline = [n for n in want_outline if n.startswith("M_")]
         if g["outline"] != want_outline:
             kind = "indexed-more-than-once" if len(g["outline"]) > len(want_outline) and set(g["outline"]) == set(want_outline) else (
                 "stale-version" if any(n.startswith("M_%s_%s_" % (f[0], f[1])) for n in g["outline"]) and g["outline"] != want_outline else "wrong")
